@@ -55,10 +55,15 @@ OPS = [
 NO_V1 = ("bulkget", "bulkwalk@1", "bulkwalk@2", "bulktable@1", "bulktable@2")
 WALKS = ("walk", "multiwalk", "bulkwalk", "table", "bulktable")
 
+# "+reboot": the client knows the engine, the agent has restarted since - the
+# request is first refused with a notInTimeWindow report and it is its
+# repetition (after the client has synchronised again) that gets the error
 VERSIONS = {
-    "quick": ["v2c", "v1", "v3:authNoPriv:md5", "v3:authPriv:sha1"],
-    "thorough": ["v2c", "v1", "v3:noAuthNoPriv:md5", "v3:authNoPriv:md5", "v3:authNoPriv:sha1", "v3:authPriv:md5", "v3:authPriv:sha1"],
+    "quick": ["v2c", "v1", "v3:authNoPriv:md5", "v3:authPriv:sha1", "v3:authNoPriv:md5+reboot", "v3:authPriv:sha1+reboot"],
+    "thorough": ["v2c", "v1", "v3:noAuthNoPriv:md5", "v3:authNoPriv:md5", "v3:authNoPriv:sha1", "v3:authPriv:md5", "v3:authPriv:sha1",
+                 "v3:authNoPriv:md5+reboot", "v3:authNoPriv:sha1+reboot", "v3:authPriv:md5+reboot", "v3:authPriv:sha1+reboot"],
 }
+REBOOT_STATUSES = {"quick": [1, 2, 5, 6, 13, 18, 19, -1], "thorough": STATUSES}
 
 
 def indexes(n):
@@ -82,7 +87,7 @@ def make_env(version):
         env.agent = ragent.Agent(env.db)
         env.client, env.sender = world.make_client(V2C("public"), env.agent.handle)
     else:
-        _, level, method = version.split(":")
+        _, level, method = version.replace("+reboot", "").split(":")
         env.client, env.sender, env.agent = world.make_v3(env.db, level, method)
     return env
 
@@ -107,6 +112,13 @@ def run_case(env, label, op, at, status, index, n):
         resp["es"], resp["ei"], resp["varbinds"] = status, index, vbs
         return resp
 
+    if env.version.endswith("+reboot"):
+        warm, wexc = ops.run_op(env.client, ("get", (1, 3, 2, 1, 0)))
+        if wexc is not None or warm != DB[(1, 3, 2, 1, 0)]:
+            raise world.HarnessError("warm-up exchange failed: %r %r" % (warm, wexc))
+        env.agent.reboot()
+        env.agent.log = []
+        env.sender.calls = []
     env.agent.response_hook = hook
     env.sender.limit = 12
     try:
@@ -168,13 +180,18 @@ def shards(tier):
             if version == "v1" and label in NO_V1:
                 continue
             out.append({"version": version, "label": label, "tier": tier})
+    # the application's logging at DEBUG (messages and PDUs are pretty-printed
+    # for the log before they are judged)
+    for version in ("v2c", "v3:authPriv:sha1"):
+        for label in ("get", "multiset", "walk@2", "bulkwalk@1"):
+            out.append({"version": version, "label": label, "tier": tier, "lib_log": "DEBUG"})
     return out
 
 
 def run_shard(params, acc):
     env = make_env(params["version"])
     label, op, at = next(o for o in OPS if o[0] == params["label"])
-    for status in STATUSES:
+    for status in (REBOOT_STATUSES[params["tier"]] if params["version"].endswith("+reboot") else STATUSES):
         for n in NS:
             for index in indexes(n):
                 violations = run_case(env, label, op, at, status, index, n)
